@@ -802,6 +802,19 @@ def vstrip(x):
 ASSIGN_LIB = 'SDN_VERILOG_ASSIGNMENT'
 
 
+def unescape(x):
+    """IEEE 1364 3.7.1: neither the leading backslash nor the terminating white space of an escaped identifier is part of
+    the identifier (\\cpu3 is the same name as cpu3).  Applied to every key and string of a Verilog canon, on both sides
+    of a comparison, so that a name written as an escaped identifier equals the same name read back with its backslash."""
+    if isinstance(x, dict):
+        return {unescape(k): unescape(v) for k, v in x.items()}
+    if isinstance(x, list):
+        return [unescape(v) for v in x]
+    if isinstance(x, str) and x.startswith('\\'):
+        return x[1:].rstrip()
+    return x
+
+
 def net_canon_verilog(n):
     """Name-keyed structure of a netlist seen through Verilog eyes: bit index = lower_index + position for ports and
     cables alike; assign instances (documented SDN_VERILOG_ASSIGNMENT library) are summarised as lists of joined bit pairs;
